@@ -121,7 +121,7 @@ class TlcResult:
 _json_line = re.compile(r'^"(\{|\[).*"$')
 
 
-def run_tlc(module, cfg, workers=None, env=None, timeout=3600, simulate=None, depth=None, heap="16g",
+def run_tlc(module, cfg, workers=None, env=None, timeout=3600, simulate=None, depth=None, heap="6g",
             coverage=False, dfs=False, extra=(), keep_emitted=True, on_emit=None):
     """Run TLC on spec/<module>.tla with spec/<cfg>.  Returns a TlcResult.
 
@@ -220,12 +220,22 @@ def tlc_emit_json(module, cfg, outpath, env=None):
 # --------------------------------------------------------------------------- known findings
 
 def load_known(pid):
-    path = os.path.join(VERIF, "KNOWN_FINDINGS.json")
-    if not os.path.exists(path):
-        return []
-    with open(path) as f:
-        data = json.load(f)
-    return [e for e in data.get("findings", []) if e.get("property") == pid and e.get("status") == "known"]
+    """Known findings of a property: KNOWN_FINDINGS.json plus the per-property fragment known/<pid>.json
+    (both committed; never written at run time)."""
+    out = []
+    for path in (os.path.join(VERIF, "KNOWN_FINDINGS.json"), os.path.join(VERIF, "known", pid + ".json")):
+        if not os.path.exists(path):
+            continue
+        with open(path) as f:
+            data = json.load(f)
+        out += [e for e in data.get("findings", []) if e.get("property") == pid and e.get("status") == "known"]
+    seen = set()
+    res = []
+    for e in out:
+        if e["id"] not in seen:
+            seen.add(e["id"])
+            res.append(e)
+    return res
 
 
 # --------------------------------------------------------------------------- check driver
